@@ -242,4 +242,71 @@ theorem good_run {S : Name → Prop} (A : List Name) : ∀ (es : List Event) (s 
       exact hS o (by simp [run, ho])
     exact ih (step s e).2 (jstep J s n e) (nstep n e) hgood' hfn' hS'
 
+theorem GenOk.trivial (incl : Bool) (o : Event) : GenOk (fun _ => True) incl o := by
+  cases o <;> simp [GenOk]
+
+theorem replace_fst (s : State) (x : Name) : (replaceIdentifier s x).1 = (generateIdentifier s).1 := rfl
+
+/-- no generated name is in the protected set `A` -/
+theorem gen_not_avoided (A : List Name) : ∀ (es : List Event) (s : State) (J : List JScope) (n : Nat),
+    Good (fun _ => True) A s J →
+    (s.incl = false → ∀ f ∈ functionNames es, f ∈ A) →
+    ∀ o ∈ run s es, GenOk (· ∉ A) s.incl o := by
+  intro es
+  induction es with
+  | nil => intro s J n _ _ o ho; simp [run] at ho
+  | cons e es ih =>
+    intro s J n hgood hfn o ho
+    simp only [run, List.mem_cons] at ho
+    rcases ho with ho | ho
+    · subst ho
+      have hg := (generate_spec hgood).2.2.2.2.2.1
+      cases e with
+      | insert x => exact hg
+      | insertLocal x => exact hg
+      | insertLocalFunction f =>
+        simp only [step]
+        split
+        · intro _; exact hg
+        · rename_i hi; intro hc; exact absurd hc hi
+      | _ => simp [step, GenOk]
+    · have hfn0 : ∀ f, e = .insertLocalFunction f → s.incl = false → f ∈ A := by
+        intro f he hi; subst he; exact hfn hi f (by simp [functionNames])
+      have hgood' := good_step hgood e n hfn0 (GenOk.trivial _ _)
+      have hfn' : (step s e).2.incl = false → ∀ f ∈ functionNames es, f ∈ A := by
+        rw [step_incl]
+        intro hi f hf
+        apply hfn hi
+        cases e <;> simp [functionNames, hf]
+      have := ih (step s e).2 (jstep J s n e) (nstep n e) hgood' hfn' o ho
+      rw [step_incl] at this
+      exact this
+
+theorem Good.init (S : Name → Prop) (avoid : List Name) (incl : Bool) :
+    Good S (avoid ++ keywords) (State.init avoid incl) [] := by
+  refine ⟨trivial, ?_, ?_, ?_, fun n hn => hn⟩
+  · simp [State.init, genNames]
+  · simp [State.init, genNames]
+  · simp
+
+/-- generated names of the live dictionaries -/
+def liveGenerated (st : List Dict) : List Name := st.flatMap freed
+
+theorem liveGenerated_sublist : ∀ {st : List Dict} {J : List JScope}, StackRel st J →
+    (liveGenerated st).Sublist (genNames J.flatten) := by
+  intro st
+  induction st with
+  | nil =>
+    intro J h
+    cases J with
+    | nil => simp [liveGenerated]
+    | cons _ _ => exact absurd h (by simp [StackRel])
+  | cons d ds ih =>
+    intro J h
+    cases J with
+    | nil => exact absurd h (by simp [StackRel])
+    | cons sc scs =>
+      simp only [liveGenerated, List.flatMap_cons, List.flatten_cons, genNames_append]
+      exact (freed_sublist h.1).append (ih h.2)
+
 end DarkluaModel.C09
